@@ -305,7 +305,7 @@ def _kearly(v):
 # ---------------------------------------------------------------------------
 
 REPLAY_BUILDS = 32
-REPEAT = 16
+REPEAT = 24
 
 
 def check_rep(prog, builds):
@@ -703,7 +703,7 @@ def remove_seam():
         main._current_synthdef = None
 
 
-def run_conc(scn, prefix, step_budget=50000):
+def run_conc(scn, prefix, step_budget=50000, keep=None):
     """One execution: threads X and Y perform scn['X'] / scn['Y'].
     -> (points, choices, result)"""
     from mc import seams, vthreading as vt
@@ -715,7 +715,7 @@ def run_conc(scn, prefix, step_budget=50000):
 
     def target(name, op):
         def f():
-            outcomes[name] = run_op(op)
+            outcomes[name] = run_op(op, keep)
         return f
 
     status, detail = 'ok', ''
@@ -856,10 +856,11 @@ def replay_conc(case):
 
 
 def _conc_iterations(case, n):
+    keep = []      # objects stay alive: later executions see new addresses
     install_seam()
     try:
         for _ in range(n):
-            _, ch, res = run_conc(case['scn'], case['choices'])
+            _, ch, res = run_conc(case['scn'], case['choices'], keep=keep)
             yield judge_conc(case['scn'], case['refs'], res)
     finally:
         remove_seam()
@@ -885,11 +886,13 @@ def replay(job):
         return {'violates': any(hits), 'all': all(hits)}
     dis = {'a': replay_rep, 'b': replay_hist, 'c': replay_census,
            'd': replay_conc}[part](case)
-    # observations that depend on object addresses (which bytes a build
-    # produced when they differ) are summarised, not echoed
-    return {'violates': any(d[0] == job['kind'] for d in dis),
-            'kinds': sorted({d[0] for d in dis}),
-            'first': [[d[0], repr(d[1])[:200]] for d in dis[:3]]}
+    out = {'violates': any(d[0] == job['kind'] for d in dis)}
+    if not hidden_residue(job['kind']) and part != 'c':
+        # (which bytes a build produced when they differ, and which other
+        # kinds accompany them, can depend on object addresses: not echoed)
+        out['disagreements'] = [[d[0], repr(d[1])[:200], repr(d[2])[:200]]
+                                for d in dis if not hidden_residue(d[0])]
+    return out
 
 
 def involves_interrupt(v, **_):
@@ -914,9 +917,15 @@ PREDICATES = {'involves_interrupt': involves_interrupt}
 def _run_part(ctx, mode, fname, jobs, bound, cands):
     jobs = list(jobs)
     order = core.shard_order(len(jobs), ctx.seed)
-    for res in ctx.map(mode, MODNAME, fname, [jobs[i] for i in order]):
+    # maxtasks=1: every shard runs in a fresh worker process
+    for res in ctx.map(mode, MODNAME, fname, [jobs[i] for i in order],
+                       maxtasks=1):
         cands.merge(res)
         ctx.absorb(res, bound)
+    if os.environ.get('C20_TIMING'):
+        import time
+        print(f'[timing] {time.time() - ctx.t0:7.1f}s after {bound[:40]}',
+              flush=True)
 
 
 def _resolve(ctx, cands):
@@ -979,9 +988,14 @@ def _pristine_refs(ctx, tagbase):
     fresh NRT process (PYTHONHASHSEED=0)."""
     from concurrent.futures import ThreadPoolExecutor
     with ThreadPoolExecutor(min(len(ALL_DEFS), max(2, core.NWORKERS))) as tp:
+        # the RT-virtual smoke run makes a library that cannot start in that
+        # mode a prompt harness error (a pool would respawn workers for ever)
+        smoke = tp.submit(census_run, ['rt', '0', 'fwd'], tagbase, 1,
+                          'd:g:s1', 1, 120, True)
         res = list(tp.map(
             lambda k: census_run(['nrt', '0', 'fwd'], tagbase, 1, 'd:' + k, 1,
                                  120, True), ALL_DEFS))
+        smoke.result()
     refs = {k: r['d:' + k][:2] for k, r in zip(ALL_DEFS, res)}
     for k in GOOD + SMALL:
         if refs[k][0] != 'ok':
@@ -1091,8 +1105,6 @@ def main(ctx):
         'the earlier cases of its shard is replayed with that walk']
     tagbase = 100 + 32 * (ctx.seed % 4)
     cands = Cands()
-    for mode in ('nrt', 'rt'):
-        ctx.pool(mode, maxtasks=1)
 
     refs = _pristine_refs(ctx, tagbase)
 
@@ -1103,11 +1115,12 @@ def main(ctx):
     _run_part(ctx, 'nrt', 'work_rep', jobs,
               f'(a) 1 statement, full pool, {builds} builds each', cands)
     if quick:
-        k = 16
-        jobs = [{'space': 's2', 'shard': i, 'of': 16, 'tagbase': tagbase,
+        # 236 first statements, dealt to 8 shards; slice = every k-th round
+        k = 30
+        jobs = [{'space': 's2', 'shard': i, 'of': 8, 'tagbase': tagbase,
                  'builds': builds, 'slice_of': k,
                  'slice_ix': core.pick_slice(ctx.seed, k)}
-                for i in range(16)]
+                for i in range(8)]
         _run_part(ctx, 'nrt', 'work_rep', jobs,
                   f'(a) 2 statements, small pool: 1/{k} slice chosen by '
                   'seed (not exhaustive)', cands)
